@@ -234,3 +234,26 @@ impl System for WinconSys {
         Ok((wstate(imp, model, prefix), hash_of(&runs)))
     }
 }
+
+/// Value sweeps: every index 0..=255 in the 256-colour forms, every component value in the RGB
+/// forms, every plain code 0..=110 the statement defines or leaves without representation.
+pub fn value_sweep_groups() -> Vec<String> {
+    let mut v = vec![];
+    for n in 0..=255u32 {
+        for pre in ["38;5;", "48;5;", "58;5;", "38:5:", "48:5:", "58:5:"] {
+            v.push(format!("{pre}{n}"));
+        }
+        v.push(format!("38;2;{n};0;255"));
+        v.push(format!("48;2;0;{n};1"));
+        v.push(format!("58;2;1;2;{n}"));
+        v.push(format!("38:2:{n}:{n}:{n}"));
+    }
+    for code in 0..=110u32 {
+        // codes the statement excludes (blink, the 2x resets, 59) and the extended-colour introducers
+        if matches!(code, 5 | 6 | 22..=29 | 38 | 48 | 58 | 59) {
+            continue;
+        }
+        v.push(code.to_string());
+    }
+    v
+}
